@@ -130,8 +130,12 @@ type obs struct {
 
 func observe(e *entry, s string) obs {
 	r := safeParse(e, s)
-	if r.hung || r.panicked != nil {
-		return obs{errs: "abnormal"}
+	if r.hung {
+		// a call that does not return is C03's finding; for C18 it is no observation (two runs cannot be compared)
+		return obs{errs: "hung"}
+	}
+	if r.panicked != nil {
+		return obs{errs: fmt.Sprint("panic: ", r.panicked)}
 	}
 	var o obs
 	o.dump = dumpAll(r.nodes, true)
@@ -176,7 +180,7 @@ func propC18(o *propOpts) *propResult {
 	// second sequential pass in reverse order
 	for i := len(items) - 1; i >= 0; i-- {
 		it := items[i]
-		if got := observe(it.e, it.s); got != first[i] {
+		if got := observe(it.e, it.s); got != first[i] && got.errs != "hung" && first[i].errs != "hung" {
 			res.fail("seq:"+it.e.name+":"+hx(it.s), it.s, it.e.name, "a repeated call after other calls gives a different result: "+firstDiff(first[i].dump+first[i].sql+first[i].errs, got.dump+got.sql+got.errs))
 		}
 	}
@@ -222,7 +226,7 @@ func propC18(o *propOpts) *propResult {
 	wg.Wait()
 	for i, it := range items {
 		res.eval(it.e.name+"|"+it.s, first[i].errs != "" || len(it.s) >= 20, func() any { return map[string]any{"entry": it.e.name, "input": it.s} })
-		if got[i] != first[i] {
+		if got[i] != first[i] && got[i].errs != "hung" && first[i].errs != "hung" {
 			res.fail("conc:"+it.e.name+":"+hx(it.s), it.s, it.e.name, "a concurrent call gives a different result than the call alone: "+firstDiff(first[i].dump+first[i].sql+first[i].errs, got[i].dump+got[i].sql+got[i].errs))
 		}
 	}
